@@ -9,7 +9,7 @@
      depth_ok s e     : the written document nests less than 128 deep (serde_json's recursion limit)
      wire_event s e   : no Some(x) printing as `null` sits in a field that is skipped when None
      exact_event s e  : no Some(x) printing as `null` anywhere (such a value cannot come out of the reader) *)
-From RipV Require Import Base.Prelude Base.Json Base.JsonParse Model.Wire Proofs.WireProofs Proofs.WireOrderProofs Gen.EventSchema Gen.Sinks.
+From RipV Require Import Base.Prelude Base.Json Base.JsonParse Model.Wire Model.WireSized Proofs.WireProofs Proofs.WireOrderProofs Proofs.WireSizedProofs Gen.EventSchema Gen.Sinks.
 
 (* the premise of everything below holds for the schema extracted from the current source *)
 Theorem c03_current_schema_wf : wf_schema gen_schema = true.
@@ -181,6 +181,88 @@ Theorem c03_log_writer_keeps_failed_line_refuted :
 Proof. exact log_writer_keeps_failed_line_refuted. Qed.
 Print Assumptions c03_log_writer_keeps_failed_line_refuted.
 
+(* ---- frames of EVERY size: the gate of EventLog::append ----
+   The sinks model takes the fate of a log write as an input.  `fate g s e d` = the disk takes the write (d) AND the gate g of
+   `EventLog::append` lets THIS frame through, where a gate is the list of statements in front of the write that can make
+   the function return, and `bytes (write_line s e)` is the length `line.len()` they can look at.  The gate of today's
+   source is regenerated on every run (tools/gen/sinks.py: every `return` / `?` before `write_all`): it holds only the
+   serialiser's `?`; the sidecar append's gate holds only I/O failures and "not a continuity frame". *)
+Theorem c03_current_append_gate : gen_ok_append_gate && wf_append_gate gen_append_gate && wf_side_gate gen_side_gate = true.
+Proof. exact gen_append_gate_ok. Qed.
+Print Assumptions c03_current_append_gate.
+
+(* append accepts every frame the kernel can produce: behind such a gate the fate of a log write is the disk's alone,
+   whatever the frame (no hypothesis on its type, its size, its characters, its nesting) ... *)
+Theorem c03_append_accepts_every_frame : forall (g : append_gate) (s : schema) (e : event) (d : bool),
+  wf_append_gate g = true -> fate g s e d = d.
+Proof. exact fate_is_the_disks. Qed.
+Print Assumptions c03_append_accepts_every_frame.
+
+(* ... so a history behind the gate is the history of the fault model (every theorem above about run_faulty applies) *)
+Theorem c03_gated_history_is_faulty_history : forall (g : append_gate) (eo : emit_order) (s : schema) (steps : list (event * bool)),
+  wf_append_gate g = true -> run_gated g eo s steps = run_faulty eo s steps.
+Proof. exact run_gated_open. Qed.
+Print Assumptions c03_gated_history_is_faulty_history.
+
+(* on a healthy disk the four views agree after ANY list of frames of ANY size, at the continuity append paths and at the
+   session / task emitters as written (store, channel, unchecked log append last) alike *)
+Theorem c03_views_agree_every_size : forall (g : append_gate) (eo : emit_order) (s : schema) (es : list event) (key : N * str),
+  wf_append_gate g = true -> (eo = eo_sess \/ wf_order eo = true) -> wf_schema s = true -> all_ok s es ->
+  view_log s key (run_gated g eo s (healthy es)) = Some (map (canon_event s) (view_live s key (run_gated g eo s (healthy es))))
+  /\ view_sidecar s key (run_gated g eo s (healthy es)) = Some (map (canon_event s) (view_live s key (run_gated g eo s (healthy es))))
+  /\ view_snapshot s key (run_gated g eo s (healthy es)) = Some (map (canon_event s) (view_live s key (run_gated g eo s (healthy es)))).
+Proof. exact views_agree_sized. Qed.
+Print Assumptions c03_views_agree_every_size.
+
+Theorem c03_live_is_emitted_every_size : forall (g : append_gate) (eo : emit_order) (s : schema) (es : list event),
+  wf_append_gate g = true -> (eo = eo_sess \/ wf_order eo = true) -> k_live (run_gated g eo s (healthy es)) = es.
+Proof. exact live_is_emitted_sized. Qed.
+Print Assumptions c03_live_is_emitted_every_size.
+
+(* the gate must be open: a limit on the line length (the seeded change C03-9: `if line.len() > n { return Err }`) behind the
+   session emitter as written, on a healthy disk, every stream numbered 0,1,2,..: a frame over the limit is delivered live and
+   written to the snapshot, never reaches the log, and the log holds the stream without its seq 0 (every validated replay fails) *)
+Theorem c03_size_limit_refuted :
+  exists n s es key e,
+    wf_schema s = true /\ all_ok s es /\ seqs_from 0 (of_stream s key es) = true
+    /\ In e (view_live s key (run_gated [GSerialize; GMaxLine n] eo_sess s (healthy es)))
+    /\ (exists v, view_snapshot s key (run_gated [GSerialize; GMaxLine n] eo_sess s (healthy es)) = Some v /\ In e v)
+    /\ (exists l, view_log s key (run_gated [GSerialize; GMaxLine n] eo_sess s (healthy es)) = Some l
+                  /\ ~ In e l /\ seqs_from 0 l = false).
+Proof. exact size_limit_refuted. Qed.
+Print Assumptions c03_size_limit_refuted.
+
+(* the same limit behind a continuity append path (log append first, checked): the refused frame is nowhere, the views agree
+   (what is lost there is the append, which the caller is told) *)
+Theorem c03_size_limit_behind_checked_append : forall (n : N) (s : schema) (steps : list (event * bool)) (key : N * str),
+  wf_schema s = true ->
+  all_ok s (logged (map (fun x => (fst x, fate [GSerialize; GMaxLine n] s (fst x) (snd x))) steps)) ->
+  view_log s key (run_gated [GSerialize; GMaxLine n] eo_cont s steps)
+  = Some (map (canon_event s) (view_live s key (run_gated [GSerialize; GMaxLine n] eo_cont s steps)))
+  /\ view_snapshot s key (run_gated [GSerialize; GMaxLine n] eo_cont s steps)
+     = Some (map (canon_event s) (view_live s key (run_gated [GSerialize; GMaxLine n] eo_cont s steps))).
+Proof. exact size_limit_cont_views_agree. Qed.
+Print Assumptions c03_size_limit_behind_checked_append.
+
+(* the correspondence on frames of several MiB: the harness ships a frame as its JSON tree with long strings run-length
+   folded; the model computes byte length and code-point sum of the written line on the folded form.  For EVERY weight and
+   EVERY folded document that is the weight of the printed text of the unfolded document *)
+Theorem c03_folded_weight_is_printed_weight : forall (w : N -> N) (j : sjson), ssum w j = wsum w (Json.print (unfold j)).
+Proof. exact ssum_unfold. Qed.
+Print Assumptions c03_folded_weight_is_printed_weight.
+
+(* ... and the views it predicts for a frame are those of emit_at for the two orders of the code *)
+Theorem c03_site_views_sound : forall (s : schema) (k : sinks) (e : event) (ok : bool),
+  site_views eo_sess ok = (true, true, ok) /\ site_views eo_cont ok = (ok, ok, ok)
+  /\ k_live (emit_at eo_sess s k e ok) = k_live k ++ [e]
+  /\ k_buffer (emit_at eo_sess s k e ok) = k_buffer k ++ [e]
+  /\ k_log (emit_at eo_sess s k e ok) = k_log k ++ (if ok then [write_line s e] else [])
+  /\ k_live (emit_at eo_cont s k e ok) = k_live k ++ (if ok then [e] else [])
+  /\ k_buffer (emit_at eo_cont s k e ok) = k_buffer k ++ (if ok then [e] else [])
+  /\ k_log (emit_at eo_cont s k e ok) = k_log k ++ (if ok then [write_line s e] else []).
+Proof. exact site_views_sound. Qed.
+Print Assumptions c03_site_views_sound.
+
 (* ---- the buffer a snapshot is written from is never shortened ----
    emit_capped cap = emit on a buffer that drops its oldest frame once it holds cap frames (the seeded change C03-6);
    below the cap it is emit; the source has no shortening call on the history buffers (regenerated on every run) *)
@@ -305,3 +387,21 @@ Example c03_demo_fault_history_ok :
   wf_schema demo_schema = true /\ all_ok demo_schema (logged demo_fault_history)
   /\ length (logged demo_fault_history) = 2%nat /\ length demo_fault_history = 4%nat.
 Proof. exact demo_fault_history_ok. Qed.
+
+(* the gate read from today's source is open, the seeded one is not; a frame over the limit and one under it; folding:
+   a line of 19 000 013 bytes computed from a 2-run document, and a small one checked against the printed text *)
+Example c03_code_gate_wf : wf_append_gate [GSerialize] = true /\ wf_side_gate [GKind; GIo; GIo; GSerialize] = true
+                           /\ wf_append_gate demo_limited = false.
+Proof. exact gate_code_wf. Qed.
+
+Example c03_demo_sized_ok :
+  wf_schema demo_schema = true /\ all_ok demo_schema demo_sized
+  /\ seqs_from 0 (of_stream demo_schema demo_key demo_sized) = true
+  /\ (demo_limit <? bytes (write_line demo_schema demo_long)) = true
+  /\ (bytes (write_line demo_schema (demo_seq 1)) <=? demo_limit) = true.
+Proof. exact demo_sized_ok. Qed.
+
+Example c03_fold_demo :
+  ssum utf8_len (SObj [([107], SStr [([97; 99; 107; 58; 32], 1); ([34; 10; 1; 233; 8364; 128512], 1000000)])]) = 19000013
+  /\ bytes (Json.print (unfold (SObj [([107], SStr [([97; 99; 107; 58; 32], 1); ([34; 10; 1; 233; 8364; 128512], 3)])]))) = 70.
+Proof. exact fold_demo. Qed.
